@@ -332,6 +332,12 @@ def stream_eq_goals(ctx, impl, spec, what="stream", guard=True):
                 goals += stream_eq_goals(ctx, a.body(zint(a.lo) + jx), b.body(zint(b.lo) + jx), f"{tag}.fold", inner_guard)
             finally:
                 ctx.solver.pop()
+        elif (isinstance(a, ARaw) and isinstance(b, ALit)) or (isinstance(a, ALit) and isinstance(b, ARaw)):
+            sa = a.seq if isinstance(a, ARaw) else Seq.of(list(a.data))
+            sb = b.seq if isinstance(b, ARaw) else Seq.of(list(b.data))
+            goals.append((f"{tag}.raw.len", Implies(guard, eq(sa.n, sb.n))))
+            k = ctx.fresh_const("byte")
+            goals.append((f"{tag}.raw.bytes", Implies(And(guard, rng(0, k, sb.n)), eq(sa.get(k), sb.get(k)))))
         elif isinstance(a, ARaw) and isinstance(b, ARaw):
             goals.append((f"{tag}.raw.len", Implies(guard, eq(a.seq.n, b.seq.n))))
             k = ctx.fresh_const("byte")
